@@ -405,3 +405,15 @@ where
         f()
     }
 }
+
+// read-only verification hook (C08): the cached unscaled norms of q and b
+#[cfg(clarabel_verif)]
+impl<T> DefaultProblemData<T>
+where
+    T: FloatT,
+{
+    /// (normq, normb) caches as currently stored (no recomputation)
+    pub fn verif_c08_norm_caches(&self) -> (Option<T>, Option<T>) {
+        (self.normq, self.normb)
+    }
+}
